@@ -76,7 +76,9 @@ def run_tlc(workdir, module, cfg=None, workers=1, timeout=600, files=None, simul
         if os.path.abspath(src) != os.path.abspath(os.path.join(workdir, tgt)):
             shutil.copy(src, os.path.join(workdir, tgt))
     cfg = cfg or (module + ".cfg")
-    java = ["java", "-XX:+UseParallelGC", "-Xss64m"]
+    jtmp = os.path.join(workdir, "jtmp")
+    os.makedirs(jtmp, exist_ok=True)
+    java = ["java", "-XX:+UseParallelGC", "-Xss64m", "-Djava.io.tmpdir=" + jtmp]
     if heap:
         java.append("-Xmx" + heap)
     if depth_first:
@@ -144,7 +146,7 @@ def _balanced(s):
 
 
 def clean_tlc_dir(workdir):
-    for sub in ("md", "states"):
+    for sub in ("md", "states", "jtmp"):
         shutil.rmtree(os.path.join(workdir, sub), ignore_errors=True)
 
 
@@ -177,7 +179,11 @@ def go_overlay_test(pkg, files, run, env=None, timeout=600, workdir=None, tags="
         cmd += ["-cpu", str(cpu)]
     cmd += ["./" + pkg]
     t0 = time.time()
-    p = subprocess.run(cmd, cwd=REPO, env=e, stdout=subprocess.PIPE, stderr=subprocess.STDOUT, text=True, errors="replace")
+    tmpd = _scratch_tmp(e)
+    try:
+        p = subprocess.run(cmd, cwd=REPO, env=e, stdout=subprocess.PIPE, stderr=subprocess.STDOUT, text=True, errors="replace")
+    finally:
+        shutil.rmtree(tmpd, ignore_errors=True)
     out = p.stdout
     with open(os.path.join(workdir, "go.out"), "w") as f:
         f.write(out)
@@ -189,11 +195,25 @@ def go_overlay_test(pkg, files, run, env=None, timeout=600, workdir=None, tags="
     return p.returncode, out, time.time() - t0
 
 
+def _scratch_tmp(e):
+    """A private TMPDIR for one harness process, removed when it ends: the in-process stores (unistore, mocktikv's
+    leveldb) create directories under the temporary directory and do not always remove them."""
+    import tempfile
+    os.makedirs(WORK, exist_ok=True)
+    d = tempfile.mkdtemp(prefix="tmp_", dir=WORK)
+    e["TMPDIR"] = d
+    return d
+
+
 def go_run_module(moddir, args, env=None, timeout=900):
     e = go_env()
     e.update(env or {})
-    p = subprocess.run(["timeout", str(int(timeout))] + args, cwd=moddir, env=e, stdout=subprocess.PIPE,
-                       stderr=subprocess.STDOUT, text=True, errors="replace")
+    tmpd = _scratch_tmp(e)
+    try:
+        p = subprocess.run(["timeout", str(int(timeout))] + args, cwd=moddir, env=e, stdout=subprocess.PIPE,
+                           stderr=subprocess.STDOUT, text=True, errors="replace")
+    finally:
+        shutil.rmtree(tmpd, ignore_errors=True)
     return p.returncode, p.stdout
 
 
